@@ -253,6 +253,9 @@ func Pow10(ctx context.Context, args ...object.Object) object.Object {
 	if err := arg.Require("math.pow10", 1, args); err != nil {
 		return err
 	}
+	if i, ok := args[0].(*object.Int); ok {
+		return object.NewFloat(math.Pow10(int(i.Value())))
+	}
 	x, err := object.AsFloat(args[0])
 	if err != nil {
 		return err
